@@ -1192,6 +1192,33 @@ func lessOfSortCall(info *types.Info, call *ast.CallExpr) *ast.FuncLit {
 	return nil
 }
 
+// lessDeclOfSortCall: the comparator is a named function or a method value (xs.less): its
+// declaration seen as a literal.
+func (c *Ctx) lessDeclOfSortCall(info *types.Info, call *ast.CallExpr) (*ast.FuncLit, *types.Info) {
+	g := calleeOf(info, call)
+	if g == nil || g.Pkg() == nil || len(call.Args) != 2 {
+		return nil, nil
+	}
+	if !((g.Pkg().Path() == "sort" && (g.Name() == "Slice" || g.Name() == "SliceStable")) || (g.Pkg().Path() == "slices" && strings.HasPrefix(g.Name(), "Sort"))) {
+		return nil, nil
+	}
+	var fobj *types.Func
+	switch x := unparen(call.Args[1]).(type) {
+	case *ast.Ident:
+		fobj, _ = info.Uses[x].(*types.Func)
+	case *ast.SelectorExpr:
+		fobj, _ = info.Uses[x.Sel].(*types.Func)
+	}
+	if fobj == nil {
+		return nil, nil
+	}
+	gi := c.FuncOfObj(fobj)
+	if gi == nil || gi.Decl.Body == nil {
+		return nil, nil
+	}
+	return &ast.FuncLit{Type: gi.Decl.Type, Body: gi.Decl.Body}, gi.Pkg.TypesInfo
+}
+
 // cmpTotal reports every sort with a lossy comparator in the given functions.
 func (c *Ctx) cmpTotal(rule string, funcs []*FuncInfo, clause string) (n, nviol int) {
 	for _, fi := range funcs {
@@ -1202,13 +1229,17 @@ func (c *Ctx) cmpTotal(rule string, funcs []*FuncInfo, clause string) (n, nviol 
 		k := 0
 		for _, call := range callsIn(fi.Decl.Body, true) {
 			lit := lessOfSortCall(info, call)
+			linfo := info
+			if lit == nil {
+				lit, linfo = c.lessDeclOfSortCall(info, call)
+			}
 			if lit == nil {
 				continue
 			}
 			k++
 			n++
 			key := fmt.Sprintf("%s/sort#%d(%s)", funcName(fi.Obj), k, c.canon(info, call.Args[0], nil))
-			v, why := c.lessVerdict(info, lit)
+			v, why := c.lessVerdict(linfo, lit)
 			switch v {
 			case "total":
 				c.OK(rule, key, call.Pos(), "strict order on the key "+why)
